@@ -6,6 +6,7 @@ import (
 	"math/rand"
 	"os"
 	"path/filepath"
+	"strings"
 	"unicode/utf8"
 
 	yaml3 "gopkg.in/yaml.v3"
@@ -83,6 +84,18 @@ func (codecStream) Generate(rng *rand.Rand, tier string, emit func(Case)) {
 	for i := 0; i < n; i++ {
 		emit(Case{"op": "roundtrip", "spec": specToProto(sensitiveSpec(rng))})
 	}
+	// sizes: files beyond 64 KiB and 1 MiB (many devices; one very long string), both encodings
+	for _, nd := range []int{400, 2500} {
+		big := &specs.Spec{Version: specs.CurrentVersion, Kind: "vendor.com/class"}
+		for i := 0; i < nd; i++ {
+			big.Devices = append(big.Devices, specs.Device{Name: fmt.Sprintf("dev%d", i), ContainerEdits: specs.ContainerEdits{
+				Env: []string{fmt.Sprintf("INDEX=%d", i), "PAD=" + strings.Repeat("x", 300)}}})
+		}
+		emit(Case{"op": "roundtrip", "spec": specToProto(big)})
+	}
+	long := &specs.Spec{Version: specs.CurrentVersion, Kind: "vendor.com/class", ContainerEdits: specs.ContainerEdits{Env: []string{"TAIL=1"}},
+		Devices: []specs.Device{{Name: "dev0", ContainerEdits: specs.ContainerEdits{Env: []string{"LONG=" + strings.Repeat("y", 70000)}}}}}
+	emit(Case{"op": "roundtrip", "spec": specToProto(long)})
 	// every sensitive string as the last leaf of the document (where the end of the file is part of
 	// the scalar) and as the first one after the header
 	for _, str := range yamlSensitive {
